@@ -86,16 +86,20 @@ PROJECTS["vendor"] = {
     VENDOR_DIR + "/vendorlib.py": ["def helper(a):\n    return a.h\n", "def helper(a):\n    return a.h\n\ndef process(a):\n    return a.vendor\n"],
 }
 # histories run in full for their project besides the random ones
-SCRIPTED = {
-    "vendor": [("run",), ("edit", VENDOR_DIR + "/vendorlib.py", 1), ("run",), ("edit", VENDOR_DIR + "/vendorlib.py", 0), ("run",),
-               ("edit", "mylocal.py", 1), ("run",), ("edit", VENDOR_DIR + "/vendorlib.py", 1), ("run",), ("run",)],
-}
+_VL = VENDOR_DIR + "/vendorlib.py"
+SCRIPTED = [
+    ("vendor", [("run",), ("edit", _VL, 1), ("run",), ("edit", _VL, 0), ("run",), ("edit", "mylocal.py", 1), ("run",), ("edit", _VL, 1), ("run",), ("run",)]),
+    # the same with the starred module excluded by -F: it is not analysed, its exports still decide the binding
+    ("vendor", [("opts", 8), ("run",), ("edit", _VL, 1), ("run",), ("edit", _VL, 0), ("run",), ("opts", 0), ("run",), ("opts", 8), ("edit", _VL, 1), ("run",), ("run",)]),
+]
+SCRIPTED_PROJECTS = {p for p, _ in SCRIPTED}
 PROJECTS["unicode"] = {
     "target.py": ["from m\u00f6dul import gr\u00f6\u00dfe\n\ndef fl\u00e4che(x):\n    return gr\u00f6\u00dfe(x.h\u00f6he)\n",
                   "from m\u00f6dul import gr\u00f6\u00dfe\n\ndef fl\u00e4che(x):\n    return gr\u00f6\u00dfe(x.breite)\n"],
     "m\u00f6dul.py": ["def gr\u00f6\u00dfe(y):\n    return y.l\u00e4nge\n", "def gr\u00f6\u00dfe(y):\n    return y.l\u00e4nge.tiefe\n"],
 }
-OPTS = [[], ["-f", "0"], ["-x", "top.*"], ["-F", "direct"], ["-F", "trans"], ["-f", "2"], ["-x", "df"], ["-F", "pkg.*"]]
+OPTS = [[], ["-f", "0"], ["-x", "top.*"], ["-F", "direct"], ["-F", "trans"], ["-f", "2"], ["-x", "df"], ["-F", "pkg.*"], ["-F", "vendorlib"]]
+N_RANDOM_OPTS = 8        # the option sets random histories draw from; the later ones belong to scripted histories
 VERSIONS = [None, "9.9.9"]
 PLUGINS = [None, "a", "b"]
 MUT_VALUES = [None, 3, True, "s", "", [], [1], {}, {"a": 1}]
@@ -194,7 +198,7 @@ def gen_ops(rng: random.Random, project: str, n: int) -> list[tuple]:
             f = rng.choice(sorted(files))
             ops.append(("edit", f, rng.randrange(len(files[f]))))
         elif k == "opts":
-            ops.append(("opts", rng.randrange(len(OPTS))))
+            ops.append(("opts", rng.randrange(N_RANDOM_OPTS)))
         elif k == "version":
             ops.append(("version", rng.choice(VERSIONS)))
         elif k == "plugin":
@@ -584,10 +588,10 @@ def main(tier: str) -> int:
     projects = sorted(PROJECTS)
     with D.Scratch() as scratch:
         jobs = [(i, projects[i % len(projects)], gen_ops(rng, projects[i % len(projects)], n_ops), str(scratch / f"h{i}")) for i in range(n_hist)]
-        jobs += [(n_hist + j, p, ops, str(scratch / f"s{j}")) for j, (p, ops) in enumerate(sorted(SCRIPTED.items()))]
+        jobs += [(n_hist + j, p, ops, str(scratch / f"s{j}")) for j, (p, ops) in enumerate(SCRIPTED)]
         mjobs = [(i, p, o, str(scratch / f"m{i}"), stride) for i, (p, o) in enumerate(
             [("chain", []), ("package", []), ("star", ["-x", "top.*"]), ("reexport", []), ("unicode", [])] if tier == "quick"
-            else [(p, o) for p in projects if p not in SCRIPTED for o in ([], ["-f", "0"], ["-x", "top.*"], ["-f", "2"])])]
+            else [(p, o) for p in projects if p not in SCRIPTED_PROJECTS for o in ([], ["-f", "0"], ["-x", "top.*"], ["-f", "2"])])]
         hists = D.pmap(run_history, jobs)
         msuites = D.pmap(mutation_suite, mjobs)
 
